@@ -780,3 +780,21 @@ func LiveLibTasks() []string {
 	}
 	return out
 }
+
+// Exited reports whether task id has exited (harness use).
+//
+//go:norace
+func Exited(id string) bool {
+	raceDisable()
+	defer raceEnable()
+	s := active.Load()
+	if s == nil {
+		return false
+	}
+	for _, t := range s.tasks {
+		if t.ID == id {
+			return t.state.Load() == stExited
+		}
+	}
+	return false
+}
